@@ -29,10 +29,13 @@ def run(ctx):
                                                                      "VERIF_INSTANCES": str(inst)}, timeout=1500)
     go_must_pass(rc, o, "datamatch harness")
     skipped = re.findall(r"VERIF-SKIPPED (\d+) (.*)", o)
+    skip_examples = dict(re.findall(r"VERIF-SKIP-EXAMPLE (.*?): (.*)", o))
     rows = read_ndjson(out)
     for r in [x for x in rows if "panic" in x]:
         ctx.violation("C04.SearchPanics:%s" % r["feat"], "the search panics (%s) for %s" % (r["panic"][:200], r["text"]), {"row": r})
-    rows = [x for x in rows if "panic" not in x]
+    for r in [x for x in rows if "searcherr" in x]:
+        ctx.violation("C04.SearchFails:%s" % r["feat"], "the search fails (%s) for %s" % (r["searcherr"][:200], r["text"]), {"row": r})
+    rows = [x for x in rows if "panic" not in x and "searcherr" not in x]
     if len(rows) < 1000:
         raise Infra("too few rows: %d (skipped: %s)" % (len(rows), skipped))
     nproc = 12
@@ -75,7 +78,7 @@ def run(ctx):
                 "select at least one stream",
         "samples": [{k: rows[i][k] for k in ("text", "feat", "reps", "steps", "real")} for i in (0, len(rows) // 2)],
         "shapes": len(shapes), "rows_validated_by_tlc": consumed, "matching_rows": decided, "feature_classes": feats,
-        "skipped": [{"n": int(n), "why": w} for n, w in skipped],
+        "skipped": [{"n": int(n), "why": w, "example": skip_examples.get(w.replace("search: ", "", 1), "")} for n, w in skipped],
     }
     return "exploration", cov, ["plain matching = rsc.io/binaryregexp without any shortcut, evaluated by a reference walker whose every step TLC re-derives",
                                 "sequences only where exactly one representation is searched (DESIGN.md C04 scope decision)",
